@@ -80,6 +80,7 @@ BOUNDED = {
     "build_validation": _prog("check_build_validation", 60, 400, "{n} random (illegal or legal setup/debug dependency) x (positional first, positional after a constant, keyword, activation) builds, seed {seed}"),
     "selection": _hist("check_selection", 250, 3000, "{n} random (DAG <= 4 nodes, R, X, T) selections, seed {seed}: executor graph, executed set, returned values, ValueError cases against the documented closure"),
     "selection_debug": _hist("check_selection", 250, 3000, "{n} random selections on DAGs with debug nodes, both settings of RUN_DEBUG_NODES, seed {seed}", debug=True),
+    "failure_recovery": _hist("check_failure_recovery", 0, 0, "deterministic: DAG / AsyncDAG with a setup node (valued / None) x failed call / executor run / setup() (the setup node or a later node raises) followed by call, executor, setup() on the same DAG and a call on another DAG: each returns (wall-clock watchdog) and equals a freshly built DAG"),
     "setup_histories": _hist("check_setup_histories", 200, 2500, "{n} random histories (length 5) over call/executor/setup/setup(selection)/deepcopy on DAGs <= 4 nodes with setup nodes, seed {seed}"),
     "no_leak": _hist("check_no_leak", 60, 600, "{n} random histories (4 steps: calls, executors, failing executors, compose, config) on DAGs <= 4 nodes, seed {seed}; after every step a call is compared with a freshly built DAG"),
     "cache": _hist("check_cache", 150, 2000, "{n} random (DAG <= 4 nodes, caching mode) pairs of caching run / restart run on a fresh instance, seed {seed}"),
